@@ -593,10 +593,16 @@ SPEC["C15"] = {
    so LISTSCRIPTS returns exactly the names of the store with the active one apart and GETSCRIPT exactly the
    lines of the stored script, the server state unchanged and both buffers empty (C15_listscripts,
    C15_getscript); and whole sessions mixing all eight operations stay in step (C15_session_with_data).
-   Names in listings are assumed free of CR / LF.  The emulated rename is a composition of these operations
-   (its safety is C14); GETSCRIPT of a missing script and LOGOUT / CAPABILITY are covered by the
-   correspondence check only.""",
-    "imports": MS_IMPORTS,
+   Names in listings are assumed free of CR / LF.
+   ms/SessionRename.v states the same against a FUNCTIONAL specification over the server's data only (store, active
+   script, configuration): spec_op ver o s = the value the call returns and the data the server is left with, where
+   a client whose server did not announce VERSION renames by emulation (LISTSCRIPTS, GETSCRIPT, PUTSCRIPT,
+   SETACTIVE, DELETESCRIPT: up to five commands in one call; abstractly RenameAbs.rename_abs, whose safety is C14).
+   C15_session_refines_spec: every session on which the specification is defined, of any length, returns exactly
+   the specified values and leaves the server with the specified data and both buffers empty, for any fuel above
+   the size of the store plus the length of the session.  GETSCRIPT of a missing script and LOGOUT / CAPABILITY
+   are covered by the correspondence check only.""",
+    "imports": MS_IMPORTS + "From SV Require Import RenameAbs RenameData Spec SessionRename.\n",
     "theorems": [
         ("C15_server_receives_one_command", "SessionFacts.srv_react_simple",
          "the reference server, in step and authenticated, receiving the bytes of one single-status command: it parses exactly that command, answers with one status reply rendered from its abstract answer, and is in step again"),
@@ -616,6 +622,12 @@ SPEC["C15"] = {
          "sessions of all eight operations, any length, any encoding choices"),
         ("C15_session_with_data_example", "SessionData.session_data_example",
          "non-vacuity: a concrete session with two listings and a fetch"),
+        ("C15_spec_op_runs", "SessionRename.spec_op_runs",
+         "one operation (emulated rename included) against the functional specification; the invariants of the session are kept"),
+        ("C15_session_refines_spec", "SessionRename.session_refines_spec",
+         "whole sessions against the functional specification, emulated rename included"),
+        ("C15_session_rename_example", "SessionRename.session_rename_example",
+         "non-vacuity: a session with two emulated renames (one refused by the script quota, one of the active script)"),
         ("raw", r'''(* what the abstract session is: the server's own exec_command, command by command *)
 Example C15_session_example :
   match abs_session [OPutscript (bs "b") (bs "stop;"); ODeletescript (bs "a"); OSetactive (bs "b");
